@@ -126,6 +126,10 @@ COLLECTION_MODELS = {
     "std::iter::IntoIterator::into_iter": _m_same, "std::iter::Iterator::chain": _m_chain,
     "std::iter::Iterator::collect": lambda I, a, n, env: A.VecV(_spread(a[0])),
     "std::iter::Extend::extend": _m_extend,
+    # an empty set / list that is then filled with extend
+    "std::collections::HashSet::new": lambda I, a, n, env: A.VecV([]),
+    "std::collections::HashSet::default": lambda I, a, n, env: A.VecV([]),
+    "std::collections::HashSet::with_capacity": lambda I, a, n, env: A.VecV([]),
     "std::iter::FromIterator::from_iter": lambda I, a, n, env: A.VecV(_spread(a[0])),
     # `<T as FromStr>::from_str(s)` is `s.parse::<T>()`
     "std::str::FromStr::from_str": lambda I, a, n, env: A.Sym("%s.parse()" % A.show(a[0]), n.get("ty")),
@@ -220,6 +224,7 @@ def cli_config_wiring(ctx, res, rule, only=None):
     n = 0
     seen_paths = 0
     bad = {}
+    split_seen = set()
     for o in outs:
         calls = entry_calls(o)
         if o["exit"] == "panic":
@@ -244,8 +249,16 @@ def cli_config_wiring(ctx, res, rule, only=None):
         for k, w in want.items():
             if only and k not in only:
                 continue
+            if k == "current" and got.get(k) != w:
+                # the same choice written as a `match` on the parse result: Ok(t) => t, Err(_) => Local::now()
+                d = o["decisions"].get("is_ok(args.time_limited_current.parse())")
+                if (d is True and got.get(k) == "args.time_limited_current.parse().ok") or (d is False and got.get(k) == "chrono::Local::now()"):
+                    split_seen.add(d)
+                    continue
             if got.get(k) != w:
                 bad[k] = "configuration field %s is wired to `%s`, expected `%s` (entry %s)" % (k, got.get(k), w, calls[0][1])
+    if split_seen and split_seen != {True, False} and "current" not in bad:
+        bad["current"] = "configuration field current is wired to one branch of the parse result only (%s)" % sorted(split_seen)
     keys = [k for k in want if not only or k in only]
     if seen_paths == 0:
         res.cannot(rule, fn, "cli-wiring", "no path of main reaches a library entry point", loc)
@@ -729,10 +742,28 @@ def strategy_selection(ctx, res, rule):
     o3 = A.Interp(P).explore(lambda J: J.call_fn_body(ab, [A.Sym("self"), A.Sym("element")]))
     nb = P.fn("UnwrapBlockMarkerAvailability::new")
     o4 = A.Interp(P).explore(lambda J: J.call_fn_body(nb, [A.Sym("tag_name")]))
-    pred = A.show(o3[0]["value"]) if len(o3) == 1 else "?"
+    pred = search_as_any(o3)
     ctor = A.show(o4[0]["value"]) if len(o4) == 1 else "?"
     if pred == "any(element.start_element.attrs.iter(), {eq($e.name, self.tag_name)})" and re.match(r"^(\w+::)*UnwrapBlockMarkerAvailability\{tag_name: tag_name\}$", ctor):
         res.holds(rule, fshort(ab), "unwrap-availability", pred)
     else:
         res.add(Finding(rule, fshort(ab), "unwrap-availability", "unwrap availability is `%s` (ctor %s); required: any attribute whose name is the keyword" % (pred, ctor), loc=T.loc(ab["tree"])))
     return n
+
+
+def search_as_any(outs):
+    """The value of a boolean function: one path -> its value; the loop spelling of `any` (a first-match search that
+    returns true when something is found and false otherwise) -> `any(<source>, <predicate>)`."""
+    if len(outs) == 1:
+        return A.show(outs[0]["value"])
+    if len(outs) == 2:
+        vals = {}
+        for o in outs:
+            if isinstance(o["value"], A.Lit) and isinstance(o["value"].v, bool) and len(o["decisions"]) == 1 and not [e for e in o["effects"] if e[0] != "call"]:
+                (k, v), = o["decisions"].items()
+                m = re.match(r"^is_some\(find\((.*)\)\)$", k)
+                if m and isinstance(v, bool):
+                    vals[v] = (o["value"].v, m.group(1))
+        if set(vals) == {True, False} and vals[True][0] is True and vals[False][0] is False and vals[True][1] == vals[False][1]:
+            return "any(%s)" % vals[True][1]
+    return "?"
